@@ -40,8 +40,8 @@ def declare(L):
     sigs = {
         "Hopen": (i32, [c_char_p, c_int, c_int16]),
         "Hclose": (c_int, [i32]),
-        "Hputelement": (i32, [i32, u16, u16, c_char_p, i32]),
-        "Hgetelement": (i32, [i32, u16, u16, c_char_p]),
+        "Hputelement": (i32, [i32, u16, u16, c_void_p, i32]),
+        "Hgetelement": (i32, [i32, u16, u16, c_void_p]),
         "Hlength": (i32, [i32, u16, u16]),
         "Hoffset": (i32, [i32, u16, u16]),
         "Hexist": (c_int, [i32, u16, u16]),
@@ -57,8 +57,8 @@ def declare(L):
         "Hstartwrite": (i32, [i32, u16, u16, i32]),
         "Hstartaccess": (i32, [i32, u16, u16, c_uint32]),
         "Hendaccess": (c_int, [i32]),
-        "Hread": (i32, [i32, i32, c_char_p]),
-        "Hwrite": (i32, [i32, i32, c_char_p]),
+        "Hread": (i32, [i32, i32, c_void_p]),
+        "Hwrite": (i32, [i32, i32, c_void_p]),
         "Hseek": (c_int, [i32, i32, c_int]),
         "Htell": (i32, [i32]),
         "Htrunc": (i32, [i32, i32]),
